@@ -31,7 +31,7 @@ type Boundary struct {
 	Mode   int `json:"mode"`   // 0 resume at the reported size, 1 resume with offset -1
 	Wrong  int `json:"wrong"`  // != 0: first resume at size+Wrong and send Junk bytes (must be refused)
 	Junk   int `json:"junk"`   // number of junk bytes sent at the wrong offset (>= 1)
-	HowEnd int `json:"howend"` // how the wrong-offset writer is driven: 0 write+close, 1 write+commit
+	HowEnd int `json:"howend"` // how the wrong-offset writer is driven: 0 write+close, 1 write+commit, 2 write, closed only when the upload has reached that offset
 	// Interlope: between opening the wrong-offset writer and its first Write another handle is opened on
 	// the same session (1: at offset -1, as the server's upload-status request does; 2: at the right offset)
 	Interlope int `json:"interlope,omitempty"`
@@ -114,9 +114,42 @@ func run(s Script, v *vt.V) {
 	written := 0
 	sizes := append(append([]int{}, s.Writes...), len(content)) // last write takes the remainder
 	resumes, wrongs := 0, 0
+	// a writer whose data was refused at an offset the upload had not reached yet, kept open
+	var lateW ociregistry.BlobWriter
+	var lateOff int64
+	defer func() {
+		if lateW != nil {
+			lateW.Close()
+		}
+	}()
 	for i, n := range sizes {
 		if n > len(content)-written {
 			n = len(content) - written
+		}
+		if lateW != nil && lateOff > int64(written) && lateOff <= int64(written+n) {
+			// bring the upload to exactly the offset the refused data was aimed at, then close the
+			// refused writer: nothing of what was refused may arrive now (the upload goes on below
+			// from that offset, which fails if anything was appended)
+			first := int(lateOff) - written
+			k, err := w.Write(content[written : written+first])
+			if err != nil || k != first {
+				fail("", "Write of %d bytes at offset %d: n=%d err=%v", first, written, k, err)
+				return
+			}
+			written += first
+			n -= first
+			if err := w.Close(); err != nil {
+				fail("", "Close at %d: %v", written, err)
+				return
+			}
+			id := w.ID()
+			lateW.Close()
+			lateW = nil
+			if w, err = reg.PushBlobChunkedResume(ctx, s.Repo, id, int64(written), s.Hint); err != nil {
+				fail("", "resume at %d after closing a refused writer: %v", written, err)
+				return
+			}
+			v.Class("late-close-of-refused-writer")
 		}
 		k, err := w.Write(content[written : written+n])
 		if err != nil || k != n {
@@ -177,7 +210,11 @@ func run(s Script, v *vt.V) {
 							perr = w2.Close()
 						}
 					}
-					w2.Close()
+					if b.HowEnd == 2 && perr != nil && off > int64(written) && lateW == nil {
+						lateW, lateOff = w2, off // closed later, when the upload has reached that offset
+					} else {
+						w2.Close()
+					}
 				}
 				switch {
 				case err != nil:
@@ -361,7 +398,7 @@ func genScript(t *rapid.T) Script {
 			if rapid.IntRange(0, 3).Draw(t, "wrongOffset") == 0 {
 				b.Wrong = rapid.SampledFrom([]int{1, 1, 2, 100, -1, -2}).Draw(t, "delta")
 				b.Junk = rapid.SampledFrom([]int{1, 2, 10, 9000}).Draw(t, "junk")
-				b.HowEnd = rapid.IntRange(0, 1).Draw(t, "howEnd")
+				b.HowEnd = rapid.IntRange(0, 2).Draw(t, "howEnd")
 				b.Interlope = rapid.SampledFrom([]int{0, 0, 1, 2}).Draw(t, "interlope")
 			}
 			s.Boundaries = append(s.Boundaries, b)
@@ -374,7 +411,7 @@ func genScript(t *rapid.T) Script {
 var prop = &vt.Prop[Script]{
 	ID:   "C04",
 	Name: "ChunkedUpload",
-	Rule: "content lengths {0,1,2,3, c-1,c,c+1, 2c-1,2c,2c+1, 3c+2 (c=8192); thorough also around 64 KiB} and small; partition into <=6 Write calls (sizes incl. 0, 1, c-1..c+1, larger than the content); chunk hint {-1,0,1,100,8191,8192,8193,20000}; any subset of write boundaries closed+resumed with explicit offset or -1 (-1 with exactly one byte received excluded as stated); optional probe at size+delta with junk data that must be refused with ErrRangeInvalid (416 on every hop) and leave the upload unaltered, also when a second handle is opened on the session (at -1 or at the right offset) between opening the wrong-offset writer and its first Write; right/wrong commit digest; stacks {mem, 1 hop, 2 hops, unify(mem,mem) both policies, http over unify, unify over http, debug+http(NoSinglePost)+debug}; oracle = Size() after every step, commit descriptor, bytes read back from the top and from every member registry; non-trivial = >=1 resume, >=2 writes or length <= 2; distinct = whole script",
+	Rule: "content lengths {0,1,2,3, c-1,c,c+1, 2c-1,2c,2c+1, 3c+2 (c=8192); thorough also around 64 KiB} and small; partition into <=6 Write calls (sizes incl. 0, 1, c-1..c+1, larger than the content); chunk hint {-1,0,1,100,8191,8192,8193,20000}; any subset of write boundaries closed+resumed with explicit offset or -1 (-1 with exactly one byte received excluded as stated); optional probe at size+delta with junk data that must be refused with ErrRangeInvalid (416 on every hop) and leave the upload unaltered, also when a second handle is opened on the session (at -1 or at the right offset) between opening the wrong-offset writer and its first Write, and when the refused writer is closed only once the upload has reached the offset it aimed at; right/wrong commit digest; stacks {mem, 1 hop, 2 hops, unify(mem,mem) both policies, http over unify, unify over http, debug+http(NoSinglePost)+debug}; oracle = Size() after every step, commit descriptor, bytes read back from the top and from every member registry; non-trivial = >=1 resume, >=2 writes or length <= 2; distinct = whole script",
 	Gen:  genScript,
 	Run:  run,
 }
